@@ -5,8 +5,16 @@
 // (3) N=1: monotone reference log-likelihood, (4) N=1, a=0: count preservation, (5) one-step-late MAP update with
 // the documented denominator bounds.  (6) restart: for EVERY k a FRESH reconstruction object (fresh objective
 // function, matrix, normalisation, prior, filters) resumes at sub-iteration k+1 from the file saved after k.
+// Extensions: (2') inter-update / inter-iteration filters WITH NEGATIVE LOBES (Metz power 1..3, edge-enhancing separable
+// convolutions) besides the Gaussian, each with its own generated interval, none / one / both: every iterate must stay
+// non-negative (STIR chains both filters with a positivity threshold); at sub-iterations where no filter is due the
+// unfiltered formula (1)/(5) must hold, where one is due the iterate must equal threshold(filter(.)) computed with a
+// separately constructed filter object.  (6') object-reuse histories (c07_recon_common.h, "hist"): resumes on the SAME
+// reconstruction object, a second run on the same object after every parameter was changed through the setters, and an
+// objective function used by an OSSPS object before.
 #include "c07_recon_common.h"
 #include "stir/OSMAPOSL/OSMAPOSLReconstruction.h"
+#include "stir/OSSPS/OSSPSReconstruction.h"
 
 using namespace vf;
 using namespace stir;
@@ -22,9 +30,8 @@ struct Cfg
   bool use_subsens;
   PriorSpec prior;
   bool multiplicative = false;
-  int filter = 0; // 0 none, 1 inter-update, 2 inter-iteration
-  int filter_interval = 1;
-  float fwhm = 0;
+  FilterSpec fu, fi; // inter-update, inter-iteration
+  bool any_filter() const { return fu.on() || fi.on(); }
   bool enforce = true;
   bool relchange = false;
   double minrc = 0, maxrc = 0;
@@ -62,7 +69,7 @@ lift_initial(const std::vector<double>& lam, bool& changed)
 
 struct StepRef
 {
-  std::vector<double> next;
+  std::vector<double> next, upd; // upd: the multiplicative update image (after the relative-change limits)
   std::vector<char> skip; // voxels inside the rounding band of a documented threshold
   RefFlags fl;
   bool clamp_lo = false, clamp_hi = false, relclamp = false;
@@ -154,7 +161,55 @@ ref_step(const Fixture& F, const Cfg& k, const std::vector<double>& lam, int sub
     }
   for (std::size_t v = 0; v < nv; ++v)
     r.next[v] = lam[v] * upd[v];
+  r.upd = upd;
   return r;
+}
+
+//! The documented result of sub-iteration `subiter` from the image `lam`, filters included:
+//!  * inter-update filter due (subiter a multiple of its interval; "subiteration interval at which to apply inter-update
+//!    filters", OSMAPOSLReconstruction.h): the update image is computed from the UNFILTERED image, the image is filtered
+//!    and thresholded to positive values, then multiplied (OSMAPOSLReconstruction::update_estimate; Jacobson et al.'s IUF);
+//!  * inter-iteration filter due: the updated image is filtered and thresholded (IterativeReconstruction::
+//!    end_of_iteration_processing, before the iterate is saved);
+//!  * neither due: exactly the unfiltered update.
+struct Expected
+{
+  StepRef step;
+  std::vector<double> image;
+  bool due_u = false, due_i = false;
+  bool threshold_active = false; // a filter produced values below the positivity threshold
+  double gain = 1;               // error amplification bound of the filters applied in this step
+  double scale = 0;              // magnitude the tolerance refers to
+};
+
+Expected
+expected_iterate(const Fixture& F, const Cfg& k, const std::vector<double>& lam, int subiter, GeneralisedPrior<target_type>* prior, double gain_u,
+                 double gain_i)
+{
+  Expected e;
+  e.step = ref_step(F, k, lam, subiter, prior);
+  e.image = e.step.next;
+  e.scale = vmax(e.image);
+  e.due_u = k.fu.on() && subiter % k.fu.interval == 0;
+  e.due_i = k.fi.on() && subiter % k.fi.interval == 0;
+  if (e.due_u)
+    {
+      const Filtered f = apply_filter_reference(F, k.fu, lam);
+      e.threshold_active |= f.threshold_active;
+      for (std::size_t v = 0; v < lam.size(); ++v)
+        e.image[v] = f.image[v] * e.step.upd[v];
+      e.gain *= std::max(1., gain_u);
+      e.scale = std::max(e.scale, vmax(e.image));
+    }
+  if (e.due_i)
+    {
+      const Filtered f = apply_filter_reference(F, k.fi, e.image);
+      e.threshold_active |= f.threshold_active;
+      e.image = f.image;
+      e.gain *= std::max(1., gain_i);
+      e.scale = std::max(e.scale, vmax(e.image));
+    }
+  return e;
 }
 
 Cfg
@@ -171,9 +226,25 @@ decode(const json& c, const Fixture& F)
   k.prior.rdp_gamma = float(c["rdp_gamma"].get<double>());
   k.prior.rdp_eps = float(c["rdp_eps"].get<double>());
   k.multiplicative = c["map_mult"].get<bool>();
-  k.filter = c["filter"].get<int>();
-  k.filter_interval = c["filter_interval"].get<int>();
-  k.fwhm = float(c["fwhm_rel"].get<double>()) * F.image->get_voxel_size().x();
+  if (c.contains("filt_u") || c.contains("filt_i"))
+    {
+      k.fu = decode_filter(c.value("filt_u", json()), F);
+      k.fi = decode_filter(c.value("filt_i", json()), F);
+    }
+  else
+    {
+      // cases written before the filter extension: "filter" 0 none, 1 inter-update, 2 inter-iteration separable Gaussian
+      json g;
+      g["kind"] = 1;
+      g["interval"] = c["filter_interval"].get<int>();
+      g["fwhm_rel"] = c["fwhm_rel"].get<double>();
+      const int filter = c["filter"].get<int>();
+      if (filter == 1)
+        k.fu = decode_filter(g, F);
+      else if (filter == 2)
+        k.fi = decode_filter(g, F);
+    }
+  k.n_sub = c.value("n_sub", k.n_sub); // first runs of a history: a number of sub-iterations, not of full iterations
   k.enforce = c["enforce"].get<bool>();
   k.relchange = c["relchange"].get<bool>();
   k.minrc = k.relchange ? c["minrc"].get<double>() : 0.;
@@ -205,14 +276,18 @@ struct Run
   shared_ptr<target_type> final_in_memory;
 };
 
-//! one reconstruction with FRESH objects, sub-iterations start..n, every iterate saved and read back
-//! returns "" or a message; *setup_rejected is set when set_up (not the iterations) refused the configuration
-std::string
-run_recon(const Fixture& F, const Cfg& k, const std::string& prefix, const shared_ptr<target_type>& target, int start, Run& out, bool* setup_rejected)
+//! one OSMAPOSL object together with the objective function it uses and what that objective function is configured as
+struct Osl
 {
-  *setup_rejected = false;
-  OSMAPOSLReconstruction<target_type> recon;
-  recon.set_objective_function_sptr(make_objective(F, k.prior, k.use_subsens));
+  shared_ptr<OSMAPOSLReconstruction<target_type>> recon;
+  shared_ptr<objective_type> obj;
+  ObjSpec ospec;
+};
+
+//! configuration of a FRESH reconstruction object (the calls of the original harness, in their order)
+void
+configure_fresh(OSMAPOSLReconstruction<target_type>& recon, const Cfg& k, const std::string& prefix, int start)
+{
   recon.set_num_subsets(k.N);
   recon.set_num_subiterations(k.n_sub);
   recon.set_start_subiteration_num(start);
@@ -229,16 +304,49 @@ run_recon(const Fixture& F, const Cfg& k, const std::string& prefix, const share
       recon.set_maximum_relative_change(k.maxrc);
       recon.set_minimum_relative_change(k.minrc);
     }
-  if (k.filter == 1)
+  if (k.fu.on())
     {
-      recon.set_inter_update_filter_ptr(gaussian_filter(k.fwhm, k.fwhm));
-      recon.set_inter_update_filter_interval(k.filter_interval);
+      recon.set_inter_update_filter_ptr(make_filter(k.fu));
+      recon.set_inter_update_filter_interval(k.fu.interval);
     }
-  else if (k.filter == 2)
+  if (k.fi.on())
     {
-      recon.set_inter_iteration_filter_ptr(gaussian_filter(k.fwhm, k.fwhm));
-      recon.set_inter_iteration_filter_interval(k.filter_interval);
+      recon.set_inter_iteration_filter_ptr(make_filter(k.fi));
+      recon.set_inter_iteration_filter_interval(k.fi.interval);
     }
+}
+
+//! re-configuration of a reconstruction object that has been used: EVERY parameter through its public setter, also those
+//! that go back to the default (relative-change limits max float / 0, filter interval 0 and a null filter)
+void
+configure_used(OSMAPOSLReconstruction<target_type>& recon, const Cfg& k, const std::string& prefix, int start)
+{
+  recon.set_num_subsets(k.N);
+  recon.set_num_subiterations(k.n_sub);
+  recon.set_start_subiteration_num(start);
+  recon.set_start_subset_num(k.start_subset);
+  recon.set_save_interval(1);
+  recon.set_randomise_subset_order(false);
+  recon.set_output_filename_prefix(prefix);
+  recon.set_enforce_initial_positivity(k.enforce);
+  if (k.prior.kind != 0)
+    recon.set_MAP_model(k.multiplicative ? "multiplicative" : "additive");
+  recon.set_maximum_relative_change(k.maxrc); // k.maxrc / k.minrc hold the defaults when the limits are not set
+  recon.set_minimum_relative_change(k.minrc);
+  recon.set_inter_update_filter_ptr(k.fu.on() ? make_filter(k.fu) : shared_ptr<DataProcessor<target_type>>());
+  recon.set_inter_update_filter_interval(k.fu.on() ? k.fu.interval : 0);
+  recon.set_inter_iteration_filter_ptr(k.fi.on() ? make_filter(k.fi) : shared_ptr<DataProcessor<target_type>>());
+  recon.set_inter_iteration_filter_interval(k.fi.on() ? k.fi.interval : 0);
+}
+
+//! set_up + reconstruct + read every saved iterate back
+//! returns "" or a message; *setup_rejected is set when set_up (not the iterations) refused the configuration
+std::string
+execute(OSMAPOSLReconstruction<target_type>& recon, const Fixture& F, const Cfg& k, const std::string& prefix, const shared_ptr<target_type>& target, int start,
+        Run& out, bool* setup_rejected)
+{
+  *setup_rejected = false;
+  StdoutSilencer quiet(k.fu.kind == 2 || k.fi.kind == 2);
   try
     {
       if (recon.set_up(target) != Succeeded::yes)
@@ -265,11 +373,38 @@ run_recon(const Fixture& F, const Cfg& k, const std::string& prefix, const share
   return "";
 }
 
+//! one reconstruction with FRESH objects, sub-iterations start..n, every iterate saved and read back
+//! `keep`: receives the objects (for histories that go on using them)
+std::string
+run_recon(const Fixture& F, const Cfg& k, const std::string& prefix, const shared_ptr<target_type>& target, int start, Run& out, bool* setup_rejected,
+          Osl* keep = nullptr)
+{
+  Osl o;
+  o.recon.reset(new OSMAPOSLReconstruction<target_type>);
+  o.ospec = final_objspec(F, k.prior, k.use_subsens);
+  o.obj = make_objective(F, k.prior, k.use_subsens);
+  o.recon->set_objective_function_sptr(o.obj);
+  configure_fresh(*o.recon, k, prefix, start);
+  if (keep)
+    *keep = o;
+  return execute(*o.recon, F, k, prefix, target, start, out, setup_rejected);
+}
+
+//! resume on an object that has already run: only what a user changes for a resume (start sub-iteration, output prefix)
+std::string
+resume_same_object(Osl& o, const Fixture& F, const Cfg& k, const std::string& prefix, const shared_ptr<target_type>& target, int start, Run& out,
+                   bool* setup_rejected)
+{
+  o.recon->set_start_subiteration_num(start);
+  o.recon->set_output_filename_prefix(prefix);
+  return execute(*o.recon, F, k, prefix, target, start, out, setup_rejected);
+}
+
 Result
 compare_images(const char* what, const std::vector<double>& got, const std::vector<double>& want, const std::vector<char>* skip, double tol,
-               const std::string& stat_key, const std::string& ctx)
+               const std::string& stat_key, const std::string& ctx, double scale_override = 0)
 {
-  const double scale = vmax(want);
+  const double scale = scale_override > 0 ? scale_override : vmax(want);
   double worst = 0;
   std::size_t where = 0;
   for (std::size_t v = 0; v < want.size(); ++v)
@@ -283,10 +418,72 @@ compare_images(const char* what, const std::vector<double>& got, const std::vect
           where = v;
         }
     }
-  if (scale > 0)
+  if (scale > 0 && !stat_key.empty())
     stats().maxi(stat_key, worst / scale);
   VF_CHECK(worst <= tol * scale || (scale == 0 && worst == 0), what, ": |diff|=", worst, " at voxel ", where, " (got ", got[where], ", expected ", want[where],
            "), max expected ", scale, " ", ctx);
+  return Result::pass();
+}
+
+//! (1)/(5)/(2') one saved iterate against the documented result of its sub-iteration from the previous saved iterate.
+//! Tolerances: float forward/back projection vs double. Observed maxima over 8 seeds x ~1300 cases: EM 1.3e-5, MAP 9.0e-5
+//! (denominator = prior gradient/N + s with cancellation down to the documented floor s/10 amplifies the float error of the
+//! sensitivity tenfold); asserted 2e-4 / 1e-3 of the image maximum (a wrong factor, index or bound is O(1e-1)).  Where a filter
+//! is due the bound is multiplied by the l1 norm of the filter's impulse response (the amplification of the float error of the
+//! update by the filter; 1 for the Gaussian, <= 27 for the kernel (-0.5,2,-0.5) in three directions); a missing, doubled or
+//! misplaced filter application changes the image by O(1).
+//! *asserted is false when the step lies inside the rounding band of a documented threshold.
+Result
+check_step(const Fixture& F, const Cfg& k, const Expected& e, const std::vector<double>& got, int j, const std::string& what_run, bool* asserted,
+           const std::string& stat_key_override = std::string())
+{
+  *asserted = false;
+  bool any_skip = false;
+  for (char c : e.step.skip)
+    any_skip |= c != 0;
+  if (e.step.fl.ambiguous || ((e.due_u || e.due_i) && any_skip))
+    {
+      stats().count("steps not asserted: value inside the rounding band of a documented threshold");
+      return Result::pass();
+    }
+  const bool filtered = e.due_u || e.due_i;
+  const double base = k.prior.kind ? 1e-3 : 2e-4;
+  const char* what = filtered ? (k.prior.kind ? "one-step-late MAP update with the filter(s) due at this sub-iteration and the positivity threshold"
+                                              : "EM update with the filter(s) due at this sub-iteration and the positivity threshold")
+                              : (k.any_filter() ? (k.prior.kind ? "one-step-late MAP update at a sub-iteration where no filter is due"
+                                                                : "EM update at a sub-iteration where no filter is due")
+                                                : (k.prior.kind ? "one-step-late MAP update" : "EM update"));
+  std::string key = stat_key_override;
+  if (key.empty())
+    {
+      if (filtered)
+        key = k.prior.kind ? "max rel err MAP update, filter due (in units of the filter gain)" : "max rel err EM update, filter due (in units of the filter gain)";
+      else if (k.any_filter())
+        key = k.prior.kind ? "max rel err MAP update, run with filters, no filter due" : "max rel err EM update, run with filters, no filter due";
+      else
+        key = k.prior.kind ? "max rel err MAP update" : "max rel err EM update";
+    }
+  // statistics in units of the allowed amplification, so that the calibration of the base tolerance is visible
+  std::vector<double> g = got, w = e.image;
+  const Result res = compare_images(what, g, w, filtered ? nullptr : &e.step.skip, base * e.gain, filtered ? std::string() : key,
+                                    cat("(", what_run, "sub-iteration ", j, ", subset ", (j + k.start_subset - 1) % k.N, " of ", k.N,
+                                        e.due_u ? cat(", inter-update filter kind ", k.fu.kind, " interval ", k.fu.interval) : std::string(),
+                                        e.due_i ? cat(", inter-iteration filter kind ", k.fi.kind, " interval ", k.fi.interval) : std::string(), ")"),
+                                    filtered ? e.scale : 0.);
+  if (filtered && e.scale > 0)
+    {
+      double worst = 0;
+      for (std::size_t v = 0; v < w.size(); ++v)
+        worst = std::max(worst, std::fabs(g[v] - w[v]));
+      stats().maxi(key, worst / e.scale / e.gain);
+    }
+  if (res.failed())
+    return res;
+  *asserted = true;
+  if (filtered)
+    stats().count(e.threshold_active ? "filtered steps checked, positivity threshold active" : "filtered steps checked, positivity threshold inactive");
+  else if (k.any_filter())
+    stats().count("steps of runs with filters where no filter is due, checked by the unfiltered formula");
   return Result::pass();
 }
 
@@ -308,16 +505,110 @@ check(const json& c_in)
   if (!balanced(F.vg_per_subset))
     return Result::reject("unbalanced subsets (OSMAPOSL::set_up calls error())");
   const int n = k.n_sub;
+  const int hist = c.value("hist", int(HIST_FRESH));
+  const json hj = c.value("h", json::object());
+  const std::string hnote = hist == HIST_FRESH ? std::string() : cat("[history: ", hist_name(hist), "] ");
 
-  // ---------------- run A ----------------
+  // ---------------- run A (the checked run) ----------------
   Run A;
-  {
-    bool rej;
-    const std::string msg = run_recon(F, k, tmp.path + "/A", image_from_vec(F, F.start), 1, A, &rej);
-    if (rej)
-      return Result::reject("run A " + msg);
-    VF_CHECK(msg.empty(), "run A: ", msg);
-  }
+  Osl R; // the objects of run A
+  if (hist == HIST_FRESH || hist == HIST_SAME_OBJECT_RESUME)
+    {
+      bool rej;
+      const std::string msg = run_recon(F, k, tmp.path + "/A", image_from_vec(F, F.start), 1, A, &rej, &R);
+      if (rej)
+        return Result::reject("run A " + msg);
+      VF_CHECK(msg.empty(), "run A: ", msg);
+    }
+  else if (hist == HIST_SECOND_RUN)
+    {
+      // first run: other settings (cfg0: the same keys as the case, overriding) on other data; its results are not asserted
+      const json cfg0 = hj.value("cfg0", json::object());
+      json c0 = c;
+      for (auto& el : cfg0.items())
+        c0[el.key()] = el.value();
+      const Cfg k0 = decode(c0, F);
+      const AltData alt = make_alt_data(F, c["dseed"].get<uint64_t>());
+      ObjSpec o0 = final_objspec(F, k0.prior, k0.use_subsens);
+      o0.data = hj.value("data0", 0);
+      o0.add = hj.value("add0", o0.add);
+      o0.norm = hj.value("norm0", o0.norm);
+      // soundness: OSMAPOSL::set_up calls error() for unbalanced subsets; the generator draws the first run's number of
+      // subsets from the balanced ones, a hand-written case that does not is rejected
+      if (!balanced_number_of_subsets(F, k0.N))
+        return Result::reject("first run of the history: unbalanced subsets (OSMAPOSL::set_up calls error())");
+      R.recon.reset(new OSMAPOSLReconstruction<target_type>);
+      R.ospec = o0;
+      R.obj = make_objective_spec(F, o0, alt);
+      R.recon->set_objective_function_sptr(R.obj);
+      configure_fresh(*R.recon, k0, tmp.path + "/P", 1);
+      {
+        Run P;
+        bool rej;
+        const std::string msg = execute(*R.recon, F, k0, tmp.path + "/P", image_from_vec(F, F.start), 1, P, &rej);
+        if (rej)
+          return Result::reject("first run of the history " + msg);
+        VF_CHECK(msg.empty(), "first run of the history: ", msg);
+      }
+      // now the settings of the case, through the setters
+      const ObjSpec o1 = final_objspec(F, k.prior, k.use_subsens);
+      reconfigure_objective(*R.obj, F, o0, o1, alt);
+      R.ospec = o1;
+      configure_used(*R.recon, k, tmp.path + "/A", 1);
+      bool rej;
+      const std::string msg = execute(*R.recon, F, k, tmp.path + "/A", image_from_vec(F, F.start), 1, A, &rej);
+      VF_CHECK(!rej && msg.empty(), hnote, "run A (second run of the object) failed: ", msg);
+      stats().count("second runs on a used OSMAPOSL object");
+    }
+  else
+    {
+      // the objective function is first used by an OSSPS object (which needs a prior with a parabolic surrogate or none:
+      // OSSPSReconstruction::set_up returns Succeeded::no otherwise, so an RDP prior is set afterwards through set_prior_sptr)
+      const AltData alt = make_alt_data(F, c["dseed"].get<uint64_t>());
+      const ObjSpec o1 = final_objspec(F, k.prior, k.use_subsens);
+      ObjSpec o0 = o1;
+      if (o0.prior.kind == 2)
+        o0.prior.kind = 0;
+      R.obj = make_objective_spec(F, o0, alt);
+      {
+        OSSPSReconstruction<target_type> pre;
+        pre.set_objective_function_sptr(R.obj);
+        pre.set_output_filename_prefix(tmp.path + "/P");
+        pre.set_output_file_format_ptr(float_interfile());
+        const int N0 = hj.value("subsets0", k.N);
+        if (!k.use_subsens && !balanced_number_of_subsets(F, N0))
+          return Result::reject("first run of the history: unbalanced subsets without subset sensitivities (set_up calls error())");
+        pre.set_num_subsets(N0);
+        pre.set_num_subiterations(hj.value("n_sub0", 1));
+        pre.set_save_interval(hj.value("n_sub0", 1));
+        shared_ptr<target_type> t = image_from_vec(F, F.start);
+        bool ok = false;
+        try
+          {
+            ok = pre.set_up(t) == Succeeded::yes;
+          }
+        catch (const stir_verif::AssertionFailure&)
+          {
+            throw;
+          }
+        catch (const std::exception& e)
+          {
+            return Result::reject(std::string("first run of the history (OSSPS) set_up: ") + e.what());
+          }
+        if (!ok)
+          return Result::reject("first run of the history (OSSPS): set_up returned Succeeded::no");
+        VF_CHECK(pre.reconstruct(t) == Succeeded::yes, "first run of the history (OSSPS): reconstruct returned Succeeded::no");
+      }
+      reconfigure_objective(*R.obj, F, o0, o1, alt);
+      R.ospec = o1;
+      R.recon.reset(new OSMAPOSLReconstruction<target_type>);
+      R.recon->set_objective_function_sptr(R.obj);
+      configure_fresh(*R.recon, k, tmp.path + "/A", 1);
+      bool rej;
+      const std::string msg = execute(*R.recon, F, k, tmp.path + "/A", image_from_vec(F, F.start), 1, A, &rej);
+      VF_CHECK(!rej && msg.empty(), hnote, "run A (objective function used by OSSPS before) failed: ", msg);
+      stats().count("runs on an objective function used by an OSSPS object before");
+    }
   std::vector<std::vector<double>> lam(std::size_t(n) + 1);
   lam[0] = F.start;
   bool lifted0 = false;
@@ -327,50 +618,46 @@ check(const json& c_in)
     lam[std::size_t(j)] = image_vec(F, *A.iter[std::size_t(j)]);
   {
     const std::vector<double> fin = image_vec(F, *A.final_in_memory);
-    VF_CHECK(fin == lam[std::size_t(n)], "the image returned by reconstruct() differs from the last saved iterate");
+    VF_CHECK(fin == lam[std::size_t(n)], hnote, "the image returned by reconstruct() differs from the last saved iterate");
   }
 
-  // (2) non-negativity (all configurations), and finiteness
+  // (2) non-negativity (all configurations, in particular filters with negative lobes: STIR chains the inter-update and the
+  // inter-iteration filter with a positivity threshold), and finiteness
   for (int j = 1; j <= n; ++j)
     for (std::size_t v = 0; v < lam[std::size_t(j)].size(); ++v)
-      VF_CHECK(std::isfinite(lam[std::size_t(j)][v]) && lam[std::size_t(j)][v] >= 0., "iterate ", j, " has value ", lam[std::size_t(j)][v], " at voxel ", v);
+      VF_CHECK(std::isfinite(lam[std::size_t(j)][v]) && lam[std::size_t(j)][v] >= 0., hnote, "iterate ", j, " has value ", lam[std::size_t(j)][v], " at voxel ", v,
+               k.any_filter() ? cat(" (inter-update filter kind ", k.fu.kind, " interval ", k.fu.interval, ", inter-iteration filter kind ", k.fi.kind, " interval ",
+                                    k.fi.interval, "; kinds: 1 Gaussian, 2 Metz, 3 separable convolution)")
+                              : std::string());
 
   shared_ptr<GeneralisedPrior<target_type>> ref_prior = make_prior(F, k.prior);
   if (ref_prior)
     ref_prior->set_up(F.image);
-  const bool formula = k.filter == 0;
-  bool any_cap = false, any_ambiguous = false, any_relclamp = false;
-  if (formula)
-    {
-      // (1)/(5) every update against the documented formula, one step at a time from the previous SAVED iterate
-      for (int j = 1; j <= n; ++j)
-        {
-          const StepRef r = ref_step(F, k, lam[std::size_t(j - 1)], j, ref_prior.get());
-          any_cap |= r.fl.cap_active;
-          any_relclamp |= r.relclamp;
-          if (r.fl.ambiguous)
-            {
-              any_ambiguous = true;
-              stats().count("steps not asserted: value inside the rounding band of a documented threshold");
-              continue;
-            }
-          if (r.clamp_lo)
-            stats().count("MAP steps with the lower denominator bound active");
-          if (r.clamp_hi)
-            stats().count("MAP steps with the upper denominator bound active");
-          // tolerance: float forward/back projection vs double. Observed maxima over 8 seeds x ~1300 cases: EM 1.3e-5, MAP 9.0e-5
-          // (denominator = prior gradient/N + s with cancellation down to the documented floor s/10 amplifies the float error of
-          // the sensitivity tenfold); asserted 2e-4 / 1e-3 of the image maximum (a wrong factor, index or bound is O(1e-1))
-          const Result res
-              = compare_images(k.prior.kind ? "one-step-late MAP update" : "EM update", lam[std::size_t(j)], r.next, &r.skip, k.prior.kind ? 1e-3 : 2e-4,
-                               k.prior.kind ? "max rel err MAP update" : "max rel err EM update",
-                               cat("(sub-iteration ", j, ", subset ", (j + k.start_subset - 1) % k.N, " of ", k.N, ")", proj_note));
-          if (res.failed())
-            return res;
+  const double gain_u = k.fu.on() ? filter_gain(F, k.fu) : 1., gain_i = k.fi.on() ? filter_gain(F, k.fi) : 1.;
+  bool any_cap = false, any_ambiguous = false, any_relclamp = false, any_threshold = false;
+  {
+    // (1)/(5)/(2') every update against the documented result, one step at a time from the previous SAVED iterate
+    for (int j = 1; j <= n; ++j)
+      {
+        const Expected e = expected_iterate(F, k, lam[std::size_t(j - 1)], j, ref_prior.get(), gain_u, gain_i);
+        any_cap |= e.step.fl.cap_active;
+        any_relclamp |= e.step.relclamp;
+        any_threshold |= e.threshold_active;
+        if (e.step.clamp_lo)
+          stats().count("MAP steps with the lower denominator bound active");
+        if (e.step.clamp_hi)
+          stats().count("MAP steps with the upper denominator bound active");
+        bool asserted;
+        const Result res = check_step(F, k, e, lam[std::size_t(j)], j, hnote + proj_note, &asserted);
+        if (res.failed())
+          return res;
+        if (asserted)
           stats().count("update steps checked by formula");
-        }
-    }
-  const bool plain_em = formula && k.prior.kind == 0 && !k.relchange && !any_cap && !any_ambiguous;
+        else
+          any_ambiguous = true;
+      }
+  }
+  const bool plain_em = !k.any_filter() && k.prior.kind == 0 && !k.relchange && !any_cap && !any_ambiguous;
   // (3) one subset: the reference log-likelihood never decreases
   if (plain_em && k.N == 1)
     {
@@ -379,7 +666,7 @@ check(const json& c_in)
         {
           const double L = loglik(F, lam[std::size_t(j)]);
           stats().maxi("max relative log-likelihood decrease (N=1)", std::max(0., (prev - L) / std::max(1., std::fabs(L))));
-          VF_CHECK(L >= prev - 1e-6 * std::max(1., std::fabs(L)), "log-likelihood decreased at iteration ", j, ": ", prev, " -> ", L);
+          VF_CHECK(L >= prev - 1e-6 * std::max(1., std::fabs(L)), hnote, "log-likelihood decreased at iteration ", j, ": ", prev, " -> ", L);
           prev = L;
         }
       stats().cls("monotonicity checked (N=1)");
@@ -398,15 +685,45 @@ check(const json& c_in)
             weighted += F.sens_total[v] * lam[std::size_t(j)][v];
           if (total > 0)
             stats().maxi("max rel err count preservation", std::fabs(weighted - total) / total);
-          VF_CHECK(std::fabs(weighted - total) <= 1e-4 * total, "sensitivity-weighted image sum ", weighted, " != total measured counts ", total,
+          VF_CHECK(std::fabs(weighted - total) <= 1e-4 * total, hnote, "sensitivity-weighted image sum ", weighted, " != total measured counts ", total,
                    " after full-data update ", j);
         }
       stats().cls("count preservation checked (N=1, a=0)");
     }
 
+  // ---------------- (6') histories 2 and 3: a run with FRESH objects and the settings of the case reproduces run A ----------------
+  if (hist == HIST_SECOND_RUN || hist == HIST_SHARED_OBJECTIVE)
+    {
+      Run B0;
+      bool rej;
+      const std::string msg = run_recon(F, k, tmp.path + "/B0", image_from_vec(F, F.start), 1, B0, &rej);
+      VF_CHECK(!rej && msg.empty(), "run with fresh objects failed although the run on used objects succeeded: ", msg);
+      for (int j = 1; j <= n; ++j)
+        {
+          const Result res = compare_images("run on used objects vs run on freshly configured objects", lam[std::size_t(j)], image_vec(F, *B0.iter[std::size_t(j)]),
+                                            nullptr, 1e-6, "max rel diff used objects vs fresh objects", cat(hnote, "(iterate ", j, " of ", n, ", N=", k.N, ")"));
+          if (res.failed())
+            return res;
+        }
+      stats().count("runs on used objects compared with a run on fresh objects");
+    }
+
   // ---------------- (6) restart at every k ----------------
+  // hist 0: fresh objects; hist 1-3: the same reconstruction object again.  Histories 2 and 3 resume at a sample of the
+  // interruption points unless "k_all" (thorough tier): the fresh full run above already costs a run.
+  std::vector<int> ks;
+  if (hist == HIST_FRESH || hist == HIST_SAME_OBJECT_RESUME || hj.value("k_all", false))
+    for (int kk = 1; kk < n; ++kk)
+      ks.push_back(kk);
+  else if (n > 1)
+    for (const auto& p : hj.value("k_pick", std::vector<int>{ 0, 1 }))
+      {
+        const int kk = 1 + (((p % (n - 1)) + (n - 1)) % (n - 1));
+        if (std::find(ks.begin(), ks.end(), kk) == ks.end())
+          ks.push_back(kk);
+      }
   long compared = 0;
-  for (int kk = 1; kk < n; ++kk)
+  for (int kk : ks)
     {
       const std::vector<double>& lk = lam[std::size_t(kk)];
       bool has_zero = false, zero_inside = false;
@@ -421,18 +738,22 @@ check(const json& c_in)
       // uninterrupted run keeps them.  Equality is demanded when nothing is lifted, or when the lifted voxels cannot
       // influence anything (never seen by any bin, no prior/filter/relative-change floor: they are multiplied by 0 again).
       const bool lifting = k.enforce && has_zero;
-      const bool lifting_harmless = lifting && !zero_inside && k.prior.kind == 0 && k.filter == 0 && !k.relchange;
+      const bool lifting_harmless = lifting && !zero_inside && k.prior.kind == 0 && !k.any_filter() && !k.relchange;
       Run B;
       bool rej;
       shared_ptr<target_type> start_img = read_image(F, cat(tmp.path, "/A_", kk, ".hv"));
-      const std::string msg = run_recon(F, k, cat(tmp.path, "/B", kk), start_img, kk + 1, B, &rej);
-      VF_CHECK(msg.empty(), "resumed run (start at sub-iteration ", kk + 1, ") failed: ", msg);
+      const std::string msg = hist == HIST_FRESH ? run_recon(F, k, cat(tmp.path, "/B", kk), start_img, kk + 1, B, &rej)
+                                                 : resume_same_object(R, F, k, cat(tmp.path, "/B", kk), start_img, kk + 1, B, &rej);
+      VF_CHECK(msg.empty(), hnote, "resumed run (start at sub-iteration ", kk + 1, ") failed: ", msg);
+      if (hist != HIST_FRESH)
+        stats().count("resumes on the same reconstruction object");
       if (!lifting || lifting_harmless)
         {
           for (int j = kk + 1; j <= n; ++j)
             {
               const Result res = compare_images("restart", image_vec(F, *B.iter[std::size_t(j)]), lam[std::size_t(j)], nullptr, 1e-6, "max rel diff restart",
-                                                cat("(resumed at sub-iteration ", kk + 1, " from the image saved after ", kk, ", iterate ", j, " of ", n, ", N=", k.N, ")"));
+                                                cat(hnote, "(resumed at sub-iteration ", kk + 1, " from the image saved after ", kk, ", iterate ", j, " of ", n, ", N=", k.N,
+                                                    hist == HIST_FRESH ? ", fresh objects" : ", on the object that has run before", ")"));
               if (res.failed())
                 return res;
             }
@@ -442,40 +763,48 @@ check(const json& c_in)
           if (lifting_harmless)
             stats().count("restarts compared with lifted never-seen voxels");
         }
-      else if (formula)
+      else
         {
           // documented behaviour of the option: the resumed run starts from the lifted image -> its first update is checked by formula
           bool ch;
           const std::vector<double> lifted = lift_initial(lk, ch);
-          const StepRef r = ref_step(F, k, lifted, kk + 1, ref_prior.get());
-          if (!r.fl.ambiguous)
-            {
-              const Result res = compare_images("first update of the resumed run (initial zeros lifted as documented)", image_vec(F, *B.iter[std::size_t(kk + 1)]),
-                                                r.next, &r.skip, k.prior.kind ? 1e-3 : 2e-4, "max rel err first update after restart with lifting",
-                                                cat("(resumed at sub-iteration ", kk + 1, ", N=", k.N, ")"));
-              if (res.failed())
-                return res;
-            }
+          const Expected e = expected_iterate(F, k, lifted, kk + 1, ref_prior.get(), gain_u, gain_i);
+          bool asserted;
+          const Result res = check_step(F, k, e, image_vec(F, *B.iter[std::size_t(kk + 1)]), kk + 1,
+                                        cat(hnote, "first update of the resumed run, initial zeros lifted as documented; resumed at sub-iteration ", kk + 1, "; "), &asserted,
+                                        "max rel err first update after restart with lifting");
+          if (res.failed())
+            return res;
           stats().count("restarts with documented lifting of zeros: first update checked by formula instead");
         }
-      else
-        stats().count("restarts with documented lifting of zeros and filters: positivity only");
       for (int j = kk + 1; j <= n; ++j)
         {
           const std::vector<double> b = image_vec(F, *B.iter[std::size_t(j)]);
           for (std::size_t v = 0; v < b.size(); ++v)
-            VF_CHECK(std::isfinite(b[v]) && b[v] >= 0., "resumed run (from ", kk, "): iterate ", j, " has value ", b[v], " at voxel ", v);
+            VF_CHECK(std::isfinite(b[v]) && b[v] >= 0., hnote, "resumed run (from ", kk, "): iterate ", j, " has value ", b[v], " at voxel ", v);
         }
     }
   stats().count("restarts compared with run A", compared);
-  stats().count("restarts run", n - 1);
+  stats().count("restarts run", long(ks.size()));
 
   // classes
+  stats().cls(cat("history: ", hist_name(hist)));
   stats().cls(k.N == 1 ? "N=1" : (k.N <= 4 ? "N=2-4" : "N>=5"));
   stats().cls(cat("prior ", k.prior.kind == 0 ? "none" : (k.prior.kind == 1 ? "quadratic" : "RDP"), k.prior.kind ? (k.multiplicative ? " multiplicative" : " additive") : ""));
   if (k.prior.kappa && k.prior.kind)
     stats().cls("prior with kappa");
-  stats().cls(k.filter == 0 ? "filter none" : (k.filter == 1 ? "inter-update filter" : "inter-iteration filter"));
+  stats().cls(!k.any_filter() ? "filter none" : (k.fu.on() && k.fi.on() ? "inter-update and inter-iteration filter" : (k.fu.on() ? "inter-update filter" : "inter-iteration filter")));
+  if (k.fu.on() && k.fu.negative_lobes())
+    stats().cls("inter-update filter with negative lobes");
+  if (k.fi.on() && k.fi.negative_lobes())
+    stats().cls(k.fu.on() ? "inter-iteration filter with negative lobes" : "inter-iteration filter with negative lobes, inter-update filter off");
+  if (any_threshold)
+    stats().cls("a filter produced non-positive values in the checked run (positivity threshold active)");
+  for (const FilterSpec* f : { &k.fu, &k.fi })
+    if (f->on())
+      stats().cls(f->kind == 1 ? "filter kind Gaussian" : (f->kind == 2 ? "filter kind Metz" : "filter kind separable convolution"));
+  if ((k.fu.on() && k.fu.interval > 1) || (k.fi.on() && k.fi.interval > 1))
+    stats().cls("filter interval > 1");
   if (F.use_add)
     stats().cls("additive term");
   if (F.use_norm)
@@ -542,13 +871,77 @@ gen(Src& s, int size)
   c["map_mult"] = s.coin();
   c["rdp_gamma"] = s.pick(std::vector<double>{ 0., 1., 2. });
   c["rdp_eps"] = s.pick(std::vector<double>{ 0.01, 0.1, 1. });
-  c["filter"] = s.chance(3, 4) ? 0 : int(s.range(1, 2));
-  c["filter_interval"] = int(s.range(1, std::max(1, N)));
-  c["fwhm_rel"] = s.pick(std::vector<double>{ 0.8, 1.5, 2.5 });
+  // filters: none 10/16, inter-iteration only 3/16 (the inter-update filter stays at its default: off), inter-update only
+  // 1/16, both 2/16; each with its own kind (Gaussian / Metz power 1..3 / separable convolution) and interval
+  {
+    const int fc = int(s.range(0, 15));
+    json off;
+    off["kind"] = 0;
+    c["filt_u"] = fc >= 13 ? gen_filter(s, N) : off;
+    c["filt_i"] = (fc >= 10 && fc != 13) ? gen_filter(s, N) : off;
+  }
   c["enforce"] = s.coin();
   c["relchange"] = s.chance(1, 6);
   c["minrc"] = s.pick(std::vector<double>{ 0., 0.25, 0.5, 0.9 });
   c["maxrc"] = s.pick(std::vector<double>{ 1.1, 1.5, 2., 10. });
+  // object-reuse histories (c07_recon_common.h): half of the cases use fresh objects for every run, as before
+  {
+    const int hr = int(s.range(0, 15));
+    const int hist = hr < 8 ? HIST_FRESH : (hr < 11 ? HIST_SAME_OBJECT_RESUME : (hr < 14 ? HIST_SECOND_RUN : HIST_SHARED_OBJECTIVE));
+    c["hist"] = hist;
+    json h = json::object();
+    if (hist == HIST_SECOND_RUN)
+      {
+        // the first run's settings: every parameter is changed with probability 1/2
+        json c0 = json::object();
+        if (s.coin())
+          c0["subsets"] = s.pick(bal); // OSMAPOSL::set_up calls error() for unbalanced subsets
+        c0["n_sub"] = int(s.range(1, 3));
+        if (s.coin())
+          c0["start_subset"] = int(s.range(0, 23));
+        if (s.coin())
+          c0["use_subsens"] = !c["use_subsens"].get<bool>();
+        if (s.coin())
+          {
+            c0["prior"] = int(s.range(0, 2));
+            c0["kappa"] = s.coin();
+          }
+        if (s.coin())
+          c0["beta_exp"] = s.real(-2.5, 1.5);
+        if (s.coin())
+          c0["map_mult"] = !c["map_mult"].get<bool>();
+        if (s.coin())
+          {
+            json off;
+            off["kind"] = 0;
+            c0["filt_u"] = s.coin() ? gen_filter(s, 3) : off;
+            c0["filt_i"] = s.coin() ? gen_filter(s, 3) : off;
+          }
+        if (s.coin())
+          c0["enforce"] = !c["enforce"].get<bool>();
+        if (s.coin())
+          {
+            c0["relchange"] = !c["relchange"].get<bool>();
+            c0["minrc"] = s.pick(std::vector<double>{ 0., 0.25, 0.5, 0.9 });
+            c0["maxrc"] = s.pick(std::vector<double>{ 1.1, 1.5, 2., 10. });
+          }
+        h["cfg0"] = c0;
+        h["data0"] = int(s.range(0, 1));                                    // other measured data
+        h["add0"] = s.coin() ? (c["use_add"].get<bool>() ? 1 : 0) : int(s.pick(std::vector<int>{ 0, 2 })); // none / the case's / another additive term
+        h["norm0"] = s.coin() ? (c["use_norm"].get<bool>() ? 1 : 0) : int(s.pick(std::vector<int>{ 0, 2 }));
+      }
+    if (hist == HIST_SHARED_OBJECTIVE)
+      {
+        h["subsets0"] = s.pick(bal); // balanced: admissible for OSSPS with and without subset sensitivities
+        h["n_sub0"] = int(s.range(1, 2));
+      }
+    if (hist == HIST_SECOND_RUN || hist == HIST_SHARED_OBJECTIVE)
+      {
+        h["k_all"] = size > 75; // thorough tier: every interruption point; quick tier: a sample of two
+        h["k_pick"] = std::vector<int>{ int(s.range(0, 35)), int(s.range(0, 35)) };
+      }
+    c["h"] = h;
+  }
   return c;
 }
 
